@@ -141,7 +141,7 @@ class G:
 
     def invalid_stmt(self):
         rng = self.rng
-        sugar = rng.choice(["(a, b)", "U()(a)", "V()(a, b)", "Z()(a)", "(a, U()(b))"])
+        sugar = rng.choice(["(a, b)", "U()(a)", "V()(a, b)", "Z()(a)", "(a, U()(b))", "(a, b + (a, b))", "(a, (b, -(a, b)))", "(a, o[(0, 1)])"])
         forms = ["if (%s == 1) { }", "while (%s) { }", "assert(%s);", "log(1 + %s);", "log(%s);", "return %s;", "var x[%s];",
                  "sx <== o[%s];", "o[%s] <== a;", "sx <== g(%s);", "sx <== a ? %s : b;", "sx <== a + %s;", "sx <== -%s;",
                  "var arr[2] = [%s, 1];", "%s === a;", "sx <== parallel (%s);", "sx <== P(%s)(a);", "sx <== U()(a + %s);",
@@ -204,6 +204,9 @@ HAND = [
     "template H11() { signal input a; signal output o; o <== parallel U()(a); }",
     "template H12() { signal input a; signal output o; var k = 0; while (k < 2) { if (k == 1) { o <== U()(a); } k++; } }",
     "function h13(x) { if (x) { return (x, x); } return 1; }",
+    "template H15() { signal input a; signal input b; log(\"values\", (a, b + (a, b))); }",
+    "template H16() { signal input a; signal input b; log((a, (b, -(a, b)))); }",
+    "template H17() { signal input a; signal output o; signal output p; (o, p) <== (a, a + (a, a)); }",
     "template H14() { signal input a; Z()(a); _ <== V()(a, a); (_, _) <== V()(a, a); }",
 ]
 
@@ -431,7 +434,7 @@ def run(ctx):
     cov["distinct_nontrivial"] = stats["definitions"]
     cov["rule"] = ("%d hand-written definitions (the positions the remover used to forget, loops, nesting, named inputs, parallel) + %d files x %d "
                    "generated definitions: templates with 0-3 valid sugar statements (10 forms, nested components, named/positional inputs in any order, "
-                   "in loops and branches) and, in half of them, one invalid statement (28 position forms x 5 sugar kinds + 10 arity/name errors); functions "
+                   "in loops and branches) and, in half of them, one invalid statement (28 position forms x 8 sugar kinds + 10 arity/name errors); functions "
                    "with 19 statement forms; a case = one definition through parse_files (L2, L1 walk) or one file/pair through the whole pipeline (L1)"
                    % (len(HAND), nfiles, per_file))
     cov["distribution"] = dict(stats)
